@@ -138,3 +138,53 @@ Proof.
   pose proof (strip_length_le (is_space U) (sub_chain U steps s)).
   pose proof (sub_chain_length_le U steps s). lia.
 Qed.
+
+(* ---- strip_punct invents nothing: every character of the result is a character of the input ---- *)
+Lemma in_firstn_ {A} (x : A) n l : In x (firstn n l) -> In x l.
+Proof. intro H. rewrite <- (firstn_skipn n l). apply in_or_app; left; exact H. Qed.
+
+Lemma in_skipn_ {A} (x : A) n l : In x (skipn n l) -> In x l.
+Proof. intro H. rewrite <- (firstn_skipn n l). apply in_or_app; right; exact H. Qed.
+
+Lemma in_slice {A} (x : A) s a b : In x (slice s a b) -> In x s.
+Proof. unfold slice. intro H. apply in_firstn_ in H. apply in_skipn_ in H. exact H. Qed.
+
+Lemma in_sub_piece : forall s g c x, In x (sub_piece s g c) -> In x s.
+Proof.
+  intros s g c x H. unfold sub_piece in H. destruct g as [n|]; [|destruct H].
+  destruct (cap_get n c) as [[a b]|]; [|destruct H]. eapply in_slice; exact H.
+Qed.
+
+Lemma in_sub_build : forall s g ms pos x, In x (sub_build s g pos ms) -> In x s.
+Proof.
+  intros s g ms; induction ms as [|[[i j] c] rest IH]; intros pos x H; cbn [sub_build] in H.
+  - eapply in_slice; exact H.
+  - apply in_app_or in H. destruct H as [H|H]; [eapply in_slice; exact H|].
+    apply in_app_or in H. destruct H as [H|H]; [eapply in_sub_piece; exact H | eapply IH; exact H].
+Qed.
+
+Lemma in_re_sub : forall U r g s x, In x (re_sub U r g s) -> In x s.
+Proof. intros U r g s x H. unfold re_sub in H. eapply in_sub_build; exact H. Qed.
+
+Lemma in_sub_chain : forall U steps s x, In x (sub_chain U steps s) -> In x s.
+Proof.
+  intros U steps; induction steps as [|[r g] rest IH]; intros s x H; [exact H|].
+  change (sub_chain U ((r, g) :: rest) s) with (sub_chain U rest (re_sub U r g s)) in H.
+  apply IH in H. eapply in_re_sub; exact H.
+Qed.
+
+Lemma in_lstrip : forall P s x, In x (lstrip P s) -> In x s.
+Proof.
+  intros P s x H. destruct (lstrip_suffix P s) as [z Hz]. rewrite Hz. apply in_or_app; right; exact H.
+Qed.
+
+Lemma in_strip : forall P s x, In x (strip P s) -> In x s.
+Proof.
+  intros P s x H. unfold strip in H. apply (in_lstrip P).
+  destruct (rstrip_prefix P (lstrip P s)) as [z Hz]. rewrite Hz. apply in_or_app; left; exact H.
+Qed.
+
+Theorem strip_punct_chars : forall U steps s x, In x (strip_punct U steps s) -> In x s.
+Proof.
+  intros U steps s x H. unfold strip_punct in H. apply in_strip in H. eapply in_sub_chain; exact H.
+Qed.
